@@ -21,7 +21,9 @@ RULE = ("the generator is the environment: every draw is a choice point with a f
         "integer draws: every value; weighted choices: every index with positive weight; other uniform draws: "
         "0.05/0.5/0.95; gauss with sd 0: no choice); all answer sequences with at most the tier's number of deviations "
         "from the default answer are executed on the real simulator for every configuration, plus random.Random(k) for "
-        "every k in 0..63; a case = one execution; non-trivial = at least one deviation or a real seeded generator")
+        "every k in 0..63; plus, for the birth-death simulators with death > 0, EVERY answer sequence over the first K structural "
+        "choice points (waiting times frozen) - deep extinction patterns need more deaths than the deviation bound allows; "
+        "a case = one execution; non-trivial = at least one deviation or a real seeded generator")
 ASSUMPTIONS = [
     "menus cover every control-flow outcome of each draw (which lineage, birth or death, which pair coalesces, which "
     "permutation step) but only two or three magnitudes per continuous draw",
@@ -43,8 +45,11 @@ MANIFEST = {
 
 def bounds(tier):
     if tier == "quick":
-        return {"deviation_bound": 4, "bd_tips": [2, 3, 4], "kingman_n": [2, 3, 4], "species_leaves": [2, 3], "real_seeds": 64}
-    return {"deviation_bound": 5, "bd_tips": [2, 3, 4, 5], "kingman_n": [2, 3, 4, 5], "species_leaves": [2, 3], "real_seeds": 256}
+        return {"deviation_bound": 4, "bd_tips": [2, 3, 4], "kingman_n": [2, 3, 4], "species_leaves": [2, 3], "real_seeds": 64,
+                "prefix_tips_and_points": {"fast_birth_death_tree": [[3, 12], [5, 11]], "birth_death_tree": [[3, 10], [5, 8]]}}
+    return {"deviation_bound": 5, "bd_tips": [2, 3, 4, 5], "kingman_n": [2, 3, 4, 5], "species_leaves": [2, 3], "real_seeds": 256,
+            "prefix_tips_and_points": {"fast_birth_death_tree": [[3, 16], [4, 13], [5, 13], [6, 12]],
+                                       "birth_death_tree": [[3, 12], [4, 10], [5, 9]]}}
 
 
 # ---------------------------------------------------------------------------
@@ -265,20 +270,23 @@ def observe(cfg, res):
     return ref.snapshot(res["tree"])
 
 
-def one_execution(cfg, prefix=None, seed=None):
-    rng = ChoiceRNG(prefix) if seed is None else random.Random(seed)
+FROZEN = ("expovariate",)   # prefix-exhaustive layer: waiting times take their default (structure only)
+
+
+def one_execution(cfg, prefix=None, seed=None, frozen=False):
+    rng = ChoiceRNG(prefix, frozen_sites=FROZEN if frozen else ()) if seed is None else random.Random(seed)
     with trapped_global_rng():
         res = run_sim(cfg, rng)
     return rng, res
 
 
-def check_execution(cfg, ctx, prefix=None, seed=None):
-    case = {"kind": "exec", "cfg": cfg, "prefix": list(prefix) if prefix is not None else None, "seed": seed}
+def check_execution(cfg, ctx, prefix=None, seed=None, frozen=False):
+    case = {"kind": "exec", "cfg": cfg, "prefix": list(prefix) if prefix is not None else None, "seed": seed, "frozen": frozen}
     name = cfg[0]
     rngbox = []
 
     def go():
-        rng, res = one_execution(cfg, prefix, seed)
+        rng, res = one_execution(cfg, prefix, seed, frozen)
         rngbox.append(rng)
         return res
     st, val = run_limited(go, 10.0)
@@ -290,7 +298,7 @@ def check_execution(cfg, ctx, prefix=None, seed=None):
             ctx.violation("%s|exception|%s" % (name, type(e).__name__), "%r raised %s: %s" % (cfg, type(e).__name__, str(e)[:200]), case)
         return None
     if st == "timeout":
-        st, v, n = budgeted(lambda: one_execution(cfg, prefix, seed), 3000000)
+        st, v, n = budgeted(lambda: one_execution(cfg, prefix, seed, frozen), 3000000)
         if st == "hang":
             ctx.violation("%s|hang" % name, "does not terminate under answers %r (last in %s)" % (prefix if prefix is not None else seed, v), case)
         return None
@@ -300,7 +308,7 @@ def check_execution(cfg, ctx, prefix=None, seed=None):
         ctx.violation("%s|%s" % (name, detail), msg, case)
     # reproducibility: same answers, fresh arguments
     try:
-        rng2, res2 = one_execution(cfg, tuple(rng.choices) if seed is None else None, seed)
+        rng2, res2 = one_execution(cfg, tuple(rng.choices) if seed is None else None, seed, frozen)
         if observe(cfg, res2) != observe(cfg, res):
             ctx.violation("%s|not-reproducible" % name, "two runs from the same generator state differ: %s vs %s" % (
                 ref.to_newick(observe(cfg, res)[1]), ref.to_newick(observe(cfg, res2)[1])), case)
@@ -324,6 +332,30 @@ def chunks(tier):
         for i, (site, m) in enumerate(rng.points):
             for alt in range(1, m):
                 out.append({"kind": "explore", "cfg": cfg, "prefix": list(ch[:i]) + [alt], "bound": b["deviation_bound"]})
+    out.extend(prefix_chunks(tier))
+    return out
+
+
+def prefix_configs(tier):
+    """configurations for the prefix-exhaustive layer: (cfg, K)"""
+    b = bounds(tier)
+    out = []
+    for name in ("birth_death_tree", "fast_birth_death_tree"):
+        for n, K in b["prefix_tips_and_points"][name]:
+            out.append(((name, n, (1.0, 0.5), "none"), K))
+    return out
+
+
+def prefix_chunks(tier):
+    out = []
+    for cfg, K in prefix_configs(tier):
+        rng, res = one_execution(cfg, (), frozen=True)
+        out.append({"kind": "prefix", "cfg": cfg, "prefix": [], "K": 0})
+        ch = rng.choices
+        # partition on the first two free points for load balance
+        for i, (site, m) in enumerate(rng.points[:K]):
+            for alt in range(1, m):
+                out.append({"kind": "prefix", "cfg": cfg, "prefix": list(ch[:i]) + [alt], "K": K})
     return out
 
 
@@ -338,6 +370,28 @@ def run_chunk(chunk, ctx):
             ctx.case(("seed", cfg, k))
             ctx.count("seeded_executions")
             check_execution(cfg, ctx, seed=k)
+        return None
+    if chunk["kind"] == "prefix":
+        stats = {"n": 0}
+
+        def runp(p):
+            ctx.case(("prefix-exec", cfg, p), nontrivial=len(p) > 0)
+            rng = check_execution(cfg, ctx, prefix=p, frozen=True)
+            stats["n"] += 1
+            if rng is None:
+                dummy = ChoiceRNG(p)
+                dummy.choices = list(p)
+                dummy.points = [("?", 1)] * len(p)
+                return dummy, None
+            return rng, None
+        choice_engine.explore_prefix(runp, chunk["K"], prefix=tuple(chunk["prefix"]))
+        ctx.count("prefix_exhaustive_executions", stats["n"])
+        ctx.count("transitions", stats["n"])
+        ctx.count("states", stats["n"])
+        ctx.count("executions", stats["n"])
+        if stats["n"] > 50:
+            ctx.sample({"config": cfg, "layer": "prefix-exhaustive: every answer over the first %d structural choice points" % chunk["K"],
+                        "answer_prefix": chunk["prefix"], "executions_below": stats["n"]}, 1)
         return None
     bound = chunk["bound"]
     stats = {"n": 0}
@@ -370,4 +424,5 @@ def run_chunk(chunk, ctx):
 def replay(case, ctx):
     cfg = _cfg(case["cfg"])
     ctx.case(("replay",))
-    check_execution(cfg, ctx, prefix=tuple(case["prefix"]) if case.get("prefix") is not None else None, seed=case.get("seed"))
+    check_execution(cfg, ctx, prefix=tuple(case["prefix"]) if case.get("prefix") is not None else None, seed=case.get("seed"),
+                    frozen=bool(case.get("frozen")))
